@@ -15,10 +15,9 @@
      dual_tri_normal    every triangle's normal (in cell-index space) is the unit
                         vector of its lattice edge pointing from solid to void;
      closed_pushforward identification of vertices (any map on vertices) keeps a
-                        closed mesh closed;
-     v2_quad_rule       the far-edge enumeration and flip of generateTriangles
-                        (dc3v2.go), run over the REGENERATED tables, emits exactly
-                        this triangle multiset.                                   *)
+                        closed mesh closed.
+   The two renderers are tied to this mesh in Algo/DCModel.v (v2_quad_rule) and
+   Algo/DCOctree.v (v1_process_edge_rule, v1_traversal_partial).              *)
 From Coq Require Import List ZArith Lia Bool Permutation.
 Import ListNotations.
 Open Scope Z_scope.
